@@ -73,6 +73,8 @@ def script_case(args):
     script = "\n".join(lines) + "\n"
     out, err, rc = runner.run_opensmt(binary, script, None, timeout=20)
     problems = []
+    if rc == "timeout":
+        return {"idx": idx, "script": script, "problems": [], "cmds": 0}       # inconclusive
     if rc not in (0, 1):
         problems.append({"what": f"opensmt terminated abnormally (status {rc})", "stderr": err[-300:]})
         return {"idx": idx, "script": script, "problems": problems, "cmds": 0}
